@@ -100,7 +100,14 @@ class Peer:
                 continue
             if data is None:
                 continue
-            if isinstance(data, tuple):       # fault marker
+            if isinstance(data, tuple) and data[0] == 'stream':
+                # an active node keeps sending updates: the client never sees the connection idle
+                k = data[1]
+                if k < self.plan.get('stream_count', 150):
+                    self.schedule(conn, self.plan['stream'], ('stream', k + 1))
+                data = f'update m:value [{1000 + k}, {{"t": 4.0}}]\n'.encode()
+                self.sim.count('peer.streamed-update')
+            elif isinstance(data, tuple):       # fault marker
                 self._do_fault(conn, data)
                 continue
             try:
@@ -151,6 +158,8 @@ class Peer:
                     init = self.plan.get('initial', {}).get(aname, 0)
                     self.schedule(conn, 0, f'update m:{aname} [{json.dumps(init)}, {{"t": 1.0}}]\n'.encode())
             self.schedule(conn, self.plan.get('activate_delay', 0), b'active\n')
+            if self.plan.get('stream'):
+                self.schedule(conn, self.plan.get('activate_delay', 0) + self.plan['stream'], ('stream', 0))
             return
         n = self.nreq_total
         self.nreq_total += 1
